@@ -265,6 +265,24 @@ func init() {
 		st.guards = ng
 		return nil, ctlRet
 	})
+	regRepo("vhWatch", func(ex *Exec, st *State, fr *Frame, args []Value) (Value, ctlT) {
+		obj := args[0].(IfaceVal)
+		pt, ok := obj.T.Underlying().(*types.Pointer)
+		if !ok {
+			unsup("vhWatch: object must be a pointer to a struct")
+		}
+		tn := pt.Elem().String()
+		if i := strings.LastIndex(tn, "."); i >= 0 {
+			tn = tn[i+1:]
+		}
+		nw := make(map[ObjID]watchDecl, len(st.watch)+1)
+		for k, v := range st.watch {
+			nw[k] = v
+		}
+		nw[obj.V.(PtrVal).Obj] = watchDecl{name: tn, t: pt.Elem()}
+		st.watch = nw
+		return nil, ctlRet
+	})
 	regRepo("vhGuardCheck", func(ex *Exec, st *State, fr *Frame, args []Value) (Value, ctlT) {
 		st.guardOn = args[0].(*Term).IsTrue()
 		return nil, ctlRet
